@@ -121,42 +121,115 @@ Proof.
   destruct (Z.ltb_spec W_MaxByteCount (off + zlen data)); [reflexivity | lia].
 Qed.
 
-(** MaxDataLen: any amount of data up to MaxDataLen gives a frame of at most maxSize bytes,
-    as long as that amount fits a 2-byte length (always the case for packets <= 16 kB). *)
-Theorem maxdatalen_stream_fits sid off dlp maxSize data :
-  vwf sid -> vwf off ->
-  zlen data <= maxdatalen_stream sid off dlp maxSize ->
-  zlen data <= maxVarInt2 ->
-  0 < maxdatalen_stream sid off dlp maxSize ->
-  length_stream sid off data dlp <= maxSize.
+(** ---- MaxDataLen (shared by STREAM, CRYPTO, DATAGRAM): header of [h] bytes, then an optional
+    varint length field, then the data *)
+
+Definition mdl (h : Z) (dlp : bool) (maxSize : Z) : Z :=
+  let headerLen := h + (if dlp then 1 else 0) in
+  if maxSize <? headerLen then 0
+  else let m := maxSize - headerLen in if dlp then shrink_for_length_field m else m.
+
+Definition glen (h : Z) (dlp : bool) (d : Z) : Z := h + (if dlp then vlen d else 0) + d.
+
+Lemma vlen_mono a b : 0 <= a <= b -> b <= maxVarInt8 -> vlen a <= vlen b.
+Proof. intros H1 H2. vl; lia. Qed.
+
+Lemma shrink_loop_ok fuel : forall dl space,
+  0 <= dl <= space -> space <= maxVarInt8 ->
+  Z.max 0 (dl - (space - 7)) < Z.of_nat fuel ->
+  (forall d, dl < d <= space -> space < vlen d - 1 + d) ->
+  0 <= shrink_loop fuel dl space <= dl /\
+  vlen (shrink_loop fuel dl space) - 1 + shrink_loop fuel dl space <= space /\
+  (forall d, shrink_loop fuel dl space < d <= space -> space < vlen d - 1 + d).
 Proof.
-  intros Vs Vo. unfold maxdatalen_stream, length_stream.
-  pose proof (zlen_nonneg data) as Hd.
-  set (h := stream_hdr_len sid off). set (n := zlen data) in *.
-  destruct dlp; cbn [andb].
-  - destruct (Z.ltb_spec maxSize (h + 1)); [lia|].
-    destruct (Z.eqb_spec (vlen (maxSize - (h + 1))) 1) as [E|E]; cbn [negb]; intros H1 H2 H3.
-    + assert (vlen n = 1) by (clear -E H1 Hd H3; vl; lia). lia.
-    + assert (vlen n <= 2) by (clear -H2 Hd; vl; lia).
-      assert (maxSize - (h + 1) <= 63 -> False) by (clear -E H3; intros; apply E; vl; lia). lia.
-  - destruct (Z.ltb_spec maxSize (h + 0)); [lia|]. intros. lia.
+  induction fuel as [|fuel IH]; intros dl space Hd Hs Hf Hmax; [lia|].
+  cbn [shrink_loop].
+  assert (Vd : vwf dl) by (unfold vwf; lia).
+  pose proof (vlen_pos dl Vd) as Hv.
+  destruct (Z.ltb_spec 0 dl) as [Lp|Lp]; cbn [andb].
+  - destruct (Z.ltb_spec space (vlen dl - 1 + dl)) as [Ln|Ln].
+    + assert (Hrec : 0 <= dl - 1 <= space) by lia.
+      specialize (IH (dl - 1) space Hrec Hs).
+      destruct IH as (A & B & C).
+      * lia.
+      * intros d Hdd. destruct (Z.eq_dec d dl) as [->|Ne]; [exact Ln | apply Hmax; lia].
+      * split; [lia|]. split; [exact B | exact C].
+    + split; [lia|]. split; [lia | exact Hmax].
+  - assert (dl = 0) by lia. subst dl. split; [lia|]. split; [|exact Hmax]. change (vlen 0) with 1. lia.
+Qed.
+
+Lemma shrink_spec space : 0 <= space <= maxVarInt8 ->
+  0 <= shrink_for_length_field space <= space /\
+  vlen (shrink_for_length_field space) - 1 + shrink_for_length_field space <= space /\
+  (forall d, shrink_for_length_field space < d <= space -> space < vlen d - 1 + d).
+Proof.
+  intros H. unfold shrink_for_length_field. apply shrink_loop_ok; lia.
+Qed.
+
+Lemma mdl_range h dlp maxSize : 0 <= h -> 0 <= maxSize <= maxVarInt8 -> 0 <= mdl h dlp maxSize <= maxSize.
+Proof.
+  intros Hh Hm. unfold mdl.
+  destruct (Z.ltb_spec maxSize (h + (if dlp then 1 else 0))); [lia|].
+  destruct dlp; [|lia].
+  pose proof (shrink_spec (maxSize - (h + 1)) ltac:(lia)) as (A & _). lia.
+Qed.
+
+(** any amount of data up to MaxDataLen fits, for every maxSize a varint can express *)
+Lemma mdl_fits h dlp maxSize d :
+  0 <= h -> maxSize <= maxVarInt8 -> 0 <= d <= mdl h dlp maxSize -> 0 < mdl h dlp maxSize ->
+  glen h dlp d <= maxSize.
+Proof.
+  intros Hh Hm. unfold mdl, glen.
+  destruct (Z.ltb_spec maxSize (h + (if dlp then 1 else 0))); [lia|].
+  destruct dlp; [|lia].
+  pose proof (shrink_spec (maxSize - (h + 1)) ltac:(lia)) as (A & B & _).
+  set (n := shrink_for_length_field (maxSize - (h + 1))) in *. intros Hd Hn.
+  assert (vlen d <= vlen n) by (apply vlen_mono; lia). lia.
 Qed.
 
 (** and it is the largest such amount *)
+Lemma mdl_maximal h dlp maxSize d :
+  0 < h -> 0 <= maxSize <= maxVarInt8 -> vwf d -> mdl h dlp maxSize < d -> maxSize < glen h dlp d.
+Proof.
+  intros Hh Hm Vd. pose proof (vlen_pos d Vd) as Hv. unfold vwf in Vd. unfold mdl, glen.
+  destruct (Z.ltb_spec maxSize (h + (if dlp then 1 else 0))); [destruct dlp; lia|].
+  destruct dlp; [|lia].
+  pose proof (shrink_spec (maxSize - (h + 1)) ltac:(lia)) as (A & B & C).
+  set (n := shrink_for_length_field (maxSize - (h + 1))) in *. intros Hd.
+  destruct (Z.le_gt_cases d (maxSize - (h + 1))) as [Le|Gt].
+  - specialize (C d ltac:(lia)). lia.
+  - lia.
+Qed.
+
+Lemma stream_hdr_pos sid off : vwf sid -> vwf off -> 2 <= stream_hdr_len sid off.
+Proof.
+  intros Vs Vo. unfold stream_hdr_len. pose proof (vlen_pos sid Vs). pose proof (vlen_pos off Vo).
+  destruct (off =? 0); lia.
+Qed.
+
+(** MaxDataLen: any amount of STREAM data up to MaxDataLen(maxSize) gives a frame of at most
+    maxSize bytes — for every maxSize (the varint range), not only for packet-sized ones. *)
+Theorem maxdatalen_stream_fits sid off dlp maxSize data :
+  vwf sid -> vwf off -> maxSize <= maxVarInt8 ->
+  zlen data <= maxdatalen_stream sid off dlp maxSize ->
+  0 < maxdatalen_stream sid off dlp maxSize ->
+  length_stream sid off data dlp <= maxSize.
+Proof.
+  intros Vs Vo Hm Hd Hn. pose proof (stream_hdr_pos sid off Vs Vo). pose proof (zlen_nonneg data).
+  change (maxdatalen_stream sid off dlp maxSize) with (mdl (stream_hdr_len sid off) dlp maxSize) in *.
+  change (length_stream sid off data dlp) with (glen (stream_hdr_len sid off) dlp (zlen data)).
+  apply mdl_fits; lia.
+Qed.
+
 Theorem maxdatalen_stream_maximal sid off dlp maxSize data :
-  0 <= maxSize -> 0 < stream_hdr_len sid off -> vwf (zlen data) ->
+  0 <= maxSize <= maxVarInt8 -> 0 < stream_hdr_len sid off -> vwf (zlen data) ->
   maxdatalen_stream sid off dlp maxSize < zlen data ->
   maxSize < length_stream sid off data dlp.
 Proof.
-  intros Hm Hh V. unfold maxdatalen_stream, length_stream.
-  set (h := stream_hdr_len sid off) in *. set (n := zlen data) in *.
-  pose proof (vlen_pos n V) as Hv.
-  destruct dlp; cbn [andb].
-  - destruct (Z.ltb_spec maxSize (h + 1)); [intros; lia|].
-    destruct (Z.eqb_spec (vlen (maxSize - (h + 1))) 1) as [E|E]; cbn [negb]; intros H1; [lia|].
-    assert (64 <= maxSize - (h + 1)) by (clear -E H; vl; lia).
-    assert (2 <= vlen n) by (clear -H0 H1 V Hv; unfold vwf in V; vl; lia). lia.
-  - destruct (Z.ltb_spec maxSize (h + 0)); intros; lia.
+  intros Hm Hh V Hd.
+  change (maxdatalen_stream sid off dlp maxSize) with (mdl (stream_hdr_len sid off) dlp maxSize) in *.
+  change (length_stream sid off data dlp) with (glen (stream_hdr_len sid off) dlp (zlen data)).
+  apply mdl_maximal; assumption.
 Qed.
 
 Lemma zlen_firstn_le {A} n (l : list A) : 0 <= n -> zlen (firstn (Z.to_nat n) l) <= n.
@@ -167,7 +240,7 @@ Proof. intros H. unfold zlen in *. rewrite firstn_length. lia. Qed.
 
 (** MaybeSplitOffFrame preserves the byte range, and the frame split off fits. *)
 Theorem split_stream_spec sid off data fin dlp maxSize :
-  wf_stream sid off data fin -> 0 <= maxSize ->
+  wf_stream sid off data fin -> 0 <= maxSize <= maxVarInt8 ->
   match split_stream sid off data fin dlp maxSize with
   | (None, false, f') => f' = FStream sid off data fin dlp /\ length_stream sid off data dlp <= maxSize
   | (None, true, f') => f' = FStream sid off data fin dlp /\ maxSize < length_stream sid off data dlp
@@ -183,28 +256,21 @@ Proof.
   destruct (Z.leb_spec (length_stream sid off data dlp) maxSize) as [L|L]; [auto|].
   set (n := maxdatalen_stream sid off dlp maxSize).
   destruct (Z.eqb_spec n 0) as [E|E]; [auto|].
-  assert (Hn0 : 0 <= n).
-  { unfold n, maxdatalen_stream. destruct (Z.ltb_spec maxSize (stream_hdr_len sid off + (if dlp then 1 else 0))); [lia|].
-    destruct dlp; cbn [andb]; [|lia].
-    destruct (Z.eqb_spec (vlen (maxSize - (stream_hdr_len sid off + 1))) 1) as [E1|E1]; cbn [negb]; [lia|].
-    assert (64 <= maxSize - (stream_hdr_len sid off + 1)) by (clear -E1 H; vl; lia). lia. }
-  assert (Hh : 0 < stream_hdr_len sid off).
-  { unfold stream_hdr_len. pose proof (vlen_pos sid Vs). pose proof (vlen_pos off Vo). destruct (off =? 0); lia. }
+  pose proof (stream_hdr_pos sid off Vs Vo) as Hh.
+  assert (Hn0 : 0 <= n <= maxSize) by (apply (mdl_range (stream_hdr_len sid off) dlp maxSize); lia).
   assert (Hlt : n < zlen data).
   { destruct (Z.ltb_spec n (zlen data)) as [|G]; [assumption|]. exfalso.
     assert (length_stream sid off data dlp <= maxSize); [|lia].
-    apply maxdatalen_stream_fits; try assumption; fold n; try lia.
-    unfold maxVarInt2, W_MaxPacketBufferSize in *. lia. }
+    apply maxdatalen_stream_fits; try assumption; fold n; lia. }
   repeat split; try reflexivity.
   - rewrite zlen_firstn by lia. reflexivity.
   - apply firstn_skipn.
   - rewrite zlen_firstn by lia. lia.
   - rewrite zlen_firstn by lia. exact Hlt.
-  - apply maxdatalen_stream_fits; try assumption; fold n.
-    + apply zlen_firstn_le; lia.
-    + rewrite zlen_firstn by lia. unfold maxVarInt2, W_MaxPacketBufferSize in *. lia.
-    + lia.
+  - apply maxdatalen_stream_fits; try assumption; fold n; try lia.
+    apply zlen_firstn_le; lia.
 Qed.
+
 
 (** ------------------------------------------------------------------ CRYPTO *)
 
@@ -225,33 +291,36 @@ Proof.
 Qed.
 
 Theorem maxdatalen_crypto_fits off maxSize data :
-  vwf off ->
+  vwf off -> maxSize <= maxVarInt8 ->
   zlen data <= maxdatalen_crypto off maxSize ->
-  zlen data <= maxVarInt2 ->
   0 < maxdatalen_crypto off maxSize ->
   length_crypto off data <= maxSize.
 Proof.
-  intros Vo. unfold maxdatalen_crypto, length_crypto.
-  pose proof (zlen_nonneg data) as Hd. set (n := zlen data) in *. set (h := 1 + vlen off + 1).
-  destruct (Z.ltb_spec maxSize h); [lia|].
-  destruct (Z.eqb_spec (vlen (maxSize - h)) 1) as [E|E]; cbn [negb]; intros H1 H2 H3.
-  - assert (vlen n = 1) by (clear -E H1 Hd H3; vl; lia). lia.
-  - assert (vlen n <= 2) by (clear -H2 Hd; vl; lia).
-    assert (maxSize - h <= 63 -> False) by (clear -E H3; intros; apply E; vl; lia). lia.
+  intros Vo Hm Hd Hn. pose proof (vlen_pos off Vo). pose proof (zlen_nonneg data).
+  change (maxdatalen_crypto off maxSize) with (mdl (1 + vlen off) true maxSize) in *.
+  change (length_crypto off data) with (glen (1 + vlen off) true (zlen data)).
+  apply mdl_fits; lia.
 Qed.
 
-(** Beyond the 2-byte length boundary MaxDataLen is too generous (by 2 bytes): a CRYPTO frame
-    cut to MaxDataLen(16390) bytes of data is 16392 bytes long. No caller reaches this: packets
-    are at most MaxPacketBufferSize bytes. *)
-Lemma maxdatalen_crypto_refuted_large :
-  exists off maxSize, forall data,
-    zlen data = maxdatalen_crypto off maxSize -> maxSize < length_crypto off data.
+Theorem maxdatalen_crypto_maximal off maxSize data :
+  vwf off -> 0 <= maxSize <= maxVarInt8 -> vwf (zlen data) ->
+  maxdatalen_crypto off maxSize < zlen data -> maxSize < length_crypto off data.
 Proof.
-  exists 0, 16390. intros data H. unfold length_crypto. rewrite H. vm_compute. reflexivity.
+  intros Vo Hm V Hd. pose proof (vlen_pos off Vo).
+  change (maxdatalen_crypto off maxSize) with (mdl (1 + vlen off) true maxSize) in *.
+  change (length_crypto off data) with (glen (1 + vlen off) true (zlen data)).
+  apply mdl_maximal; try assumption; lia.
 Qed.
+
+(** Regression: the former counter-example (before the repair MaxDataLen(16390) was 16386 and the
+    frame 16392 bytes long). Now 16384 bytes of data are allowed and the frame has exactly 16390 bytes. *)
+Example maxdatalen_crypto_large_regression :
+  maxdatalen_crypto 0 16390 = 16384 /\
+  (forall data, zlen data = 16384 -> length_crypto 0 data = 16390).
+Proof. split; [vm_compute; reflexivity | intros data H; unfold length_crypto; rewrite H; reflexivity]. Qed.
 
 Theorem split_crypto_spec off data maxSize :
-  wf_crypto off data -> zlen data <= maxVarInt2 -> 0 <= maxSize ->
+  wf_crypto off data -> 0 <= maxSize <= maxVarInt8 ->
   match split_crypto off data maxSize with
   | (None, false, f') => f' = FCrypto off data /\ length_crypto off data <= maxSize
   | (None, true, f') => f' = FCrypto off data /\ maxSize < length_crypto off data /\ maxdatalen_crypto off maxSize = 0
@@ -261,15 +330,12 @@ Theorem split_crypto_spec off data maxSize :
   | _ => False
   end.
 Proof.
-  intros (Vo & Vd) Hl Hm. unfold split_crypto.
+  intros (Vo & Vd) Hm. unfold split_crypto.
   destruct (Z.leb_spec (length_crypto off data) maxSize) as [L|L]; [auto|].
   set (n := maxdatalen_crypto off maxSize).
   destruct (Z.eqb_spec n 0) as [E|E]; [auto|].
   pose proof (vlen_pos off Vo) as Ho. pose proof (zlen_nonneg data) as Hd.
-  assert (Hn : 0 <= n <= maxSize).
-  { unfold n, maxdatalen_crypto. destruct (Z.ltb_spec maxSize (1 + vlen off + 1)); [lia|].
-    destruct (Z.eqb_spec (vlen (maxSize - (1 + vlen off + 1))) 1) as [E1|E1]; cbn [negb]; [lia|].
-    assert (64 <= maxSize - (1 + vlen off + 1)) by (clear -E1 H; vl; lia). lia. }
+  assert (Hn : 0 <= n <= maxSize) by (apply (mdl_range (1 + vlen off) true maxSize); lia).
   assert (Hlt : n < zlen data).
   { destruct (Z.ltb_spec n (zlen data)) as [|G]; [assumption|]. exfalso.
     assert (length_crypto off data <= maxSize); [|lia].
@@ -279,11 +345,10 @@ Proof.
   - apply firstn_skipn.
   - rewrite zlen_firstn by lia. lia.
   - rewrite zlen_firstn by lia. exact Hlt.
-  - apply maxdatalen_crypto_fits; try assumption; fold n.
-    + apply zlen_firstn_le; lia.
-    + rewrite zlen_firstn by lia. lia.
-    + lia.
+  - apply maxdatalen_crypto_fits; try assumption; fold n; try lia.
+    apply zlen_firstn_le; lia.
 Qed.
+
 
 (** ------------------------------------------------------------------ DATAGRAM *)
 
@@ -306,18 +371,13 @@ Proof.
 Qed.
 
 Theorem maxdatalen_datagram_fits dlp maxSize data :
+  maxSize <= maxVarInt8 ->
   zlen data <= maxdatalen_datagram dlp maxSize ->
-  zlen data <= maxVarInt2 ->
   0 < maxdatalen_datagram dlp maxSize ->
   length_datagram dlp data <= maxSize.
 Proof.
-  unfold maxdatalen_datagram, length_datagram.
-  pose proof (zlen_nonneg data) as Hd. set (n := zlen data) in *.
-  destruct dlp; cbn [andb].
-  - destruct (Z.ltb_spec maxSize (1 + 1)); [lia|].
-    destruct (Z.eqb_spec (vlen (maxSize - (1 + 1))) 1) as [E|E]; cbn [negb]; intros H1 H2 H3.
-    + assert (vlen n = 1) by (clear -E H1 Hd H3; vl; lia). lia.
-    + assert (vlen n <= 2) by (clear -H2 Hd; vl; lia).
-      assert (maxSize - (1 + 1) <= 63 -> False) by (clear -E H3; intros; apply E; vl; lia). lia.
-  - destruct (Z.ltb_spec maxSize (1 + 0)); intros; lia.
+  intros Hm Hd Hn. pose proof (zlen_nonneg data).
+  change (maxdatalen_datagram dlp maxSize) with (mdl 1 dlp maxSize) in *.
+  assert (glen 1 dlp (zlen data) <= maxSize) by (apply mdl_fits; lia).
+  unfold glen, length_datagram in *. lia.
 Qed.
